@@ -559,18 +559,48 @@ pub mod fs {
 
     pub fn remove_file<P: AsRef<Path>>(path: P) -> io::Result<()> {
         let path = path.as_ref();
-        let r = std::fs::remove_file(path);
-        if in_sim() {
-            log_op("remove", path, 0, None, &r);
+        if !in_sim() {
+            return std::fs::remove_file(path);
         }
+        match next_out_fault(true) {
+            OutFault::Crash(_) => {
+                log_op("remove", path, 0, Some("crash".into()), &Ok(()));
+                crash_now();
+            }
+            OutFault::Fail(e, name) | OutFault::Short(_, e, name) => {
+                ctx::fired(&name);
+                let r = Err(e);
+                log_op("remove", path, 0, Some(name), &unit(&r));
+                return r;
+            }
+            OutFault::None => {}
+        }
+        let r = std::fs::remove_file(path);
+        log_op("remove", path, 0, None, &r);
         r
     }
 
     pub fn rename<P: AsRef<Path>, Q: AsRef<Path>>(from: P, to: Q) -> io::Result<()> {
-        let r = std::fs::rename(from.as_ref(), to.as_ref());
-        if in_sim() {
-            log_op("rename", to.as_ref(), 0, None, &r);
+        let (from, to) = (from.as_ref(), to.as_ref());
+        if !in_sim() {
+            return std::fs::rename(from, to);
         }
+        match next_out_fault(true) {
+            OutFault::Crash(_) => {
+                // the process dies right before the rename takes effect
+                log_op("rename", to, 0, Some("crash".into()), &Ok(()));
+                crash_now();
+            }
+            OutFault::Fail(e, name) | OutFault::Short(_, e, name) => {
+                ctx::fired(&name);
+                let r = Err(e);
+                log_op("rename", to, 0, Some(name), &unit(&r));
+                return r;
+            }
+            OutFault::None => {}
+        }
+        let r = std::fs::rename(from, to);
+        log_op("rename", to, 0, None, &r);
         r
     }
 
